@@ -492,7 +492,13 @@ func (ww *WW) StepReclaim() {
 			}
 		}
 	}
-	if len(mintsWithPending) > 1 {
+	pendKeysets := map[string]bool{}
+	for _, p := range n.Inner.GetPendingProofs() {
+		pendKeysets[p.Id] = true
+	}
+	// gonuts groups the pending proofs by keyset and by mint in Go maps and builds its checkstate
+	// requests in map order: with more than one group the request bytes would not replay
+	if len(mintsWithPending) > 1 || len(pendKeysets) > 1 {
 		return
 	}
 	remove := ww.T.Chance("reclaim.remove", 1, 2)
